@@ -401,5 +401,28 @@ def r14_10(ctx):
     delegate(ctx, c05.r05_9, lambda c: "deferred member assignments" in c)
 
 
+def r14_11(ctx):
+    """R14.11 `save: null` writes where the client was told the configuration lives: in run_server() the remembered file name is
+    updated from a load/save request independently of whether *another* part of the same request reported an error - the reply
+    tells the client that the load happened, and a fresh server on that file is what the client is compared with."""
+    from .common import parse_key
+    repo = ctx.repo
+    f = repo.func("kconfserver.core:run_server")
+    ctx.analysed(f.qual)
+    fl = Flow(f.node, resolver=Resolver(f.node)).run()
+    prm = [a.arg for a in f.node.args.args]
+    path_param = prm[1] if len(prm) > 1 else "sdkconfig"
+    stores = [n for n in ast.walk(f.node) if isinstance(n, ast.Assign) and len(n.targets) == 1 and ast.unparse(n.targets[0]) == path_param
+              and repo.enclosing_func(n) is f]
+    if len(stores) < 1:
+        raise AnalysisError(f"no update of the remembered path `{path_param}` in run_server")
+    for i, st in enumerate(stores):
+        construct = f"run_server/update #{i + 1} of the remembered file name does not depend on the request's error list"
+        dep = sorted(k for k, p in (fl.guards_at(st) or set()) if "error" in {x.id for x in ast.walk(parse_key(k)) if isinstance(x, ast.Name)})
+        src = ast.unparse(st.value)
+        (ctx.bad(construct, f"`{ast.unparse(st)}` runs only under {dep}: an error in an unrelated part of the request makes the server forget the file it just "
+                 "loaded / saved, and `save: null` goes to the previous file", f.loc(st)) if dep or not src.startswith("req[") else ctx.ok(construct, f.loc(st)))
+
+
 def rules():
-    return [("R14.10", r14_10, 1), ("R14.9", r14_9, 1), ("R14.1", r14_1, 9), ("R14.2", r14_2, 5), ("R14.3", r14_3, 3), ("R14.4", r14_4, 20), ("R14.5", r14_5, 10), ("R14.6", r14_6, 5), ("R14.7", r14_7, 1), ("R14.8", r14_8, 6)]
+    return [("R14.11", r14_11, 2), ("R14.10", r14_10, 1), ("R14.9", r14_9, 1), ("R14.1", r14_1, 9), ("R14.2", r14_2, 5), ("R14.3", r14_3, 3), ("R14.4", r14_4, 20), ("R14.5", r14_5, 10), ("R14.6", r14_6, 5), ("R14.7", r14_7, 1), ("R14.8", r14_8, 6)]
